@@ -7,7 +7,7 @@ HERE = os.path.dirname(os.path.abspath(__file__))
 CBMC_CHECKS = ['--bounds-check', '--pointer-check', '--pointer-overflow-check', '--div-by-zero-check',
                '--signed-overflow-check', '--conversion-check', '--undefined-shift-check', '--pointer-primitive-check', '--object-bits', '12']
 MEM_KB = 12 * 1024 * 1024
-LIBC = {'malloc', 'free', 'realloc', 'calloc', 'memcpy', 'memmove', 'memset', 'memcmp', 'strlen', 'strcmp', 'strncmp', 'strcpy', 'floor', 'ceil', 'round', 'fabs', 'isnan', 'isinf',
+LIBC = {'time', 'clock', 'difftime', 'mktime', 'gmtime', 'localtime', 'strftime', 'atoi', 'atol', 'strtol', 'strtoul', 'strtod', 'snprintf', 'sprintf', 'printf', 'puts', 'abs', 'labs', 'llabs', 'malloc', 'free', 'realloc', 'calloc', 'memcpy', 'memmove', 'memset', 'memcmp', 'strlen', 'strcmp', 'strncmp', 'strcpy', 'floor', 'ceil', 'round', 'fabs', 'isnan', 'isinf',
         'pow', 'sqrt', 'abort', 'exit', 'trunc', 'fmod', 'lround', 'llround', 'nearbyint', 'rint', '__builtin_isnan', '__builtin_isinf', '__isnan', '__isinf', '__fpclassify', '__signbit',
         '__builtin_nan', '__builtin_inf', '__builtin_huge_val', 'nan', '__isnanf', '__isinff', '__builtin_fabs', '__builtin_floor', '__builtin_ceil'}
 
@@ -32,7 +32,7 @@ def gen_harness(cname, sig):
     lines = ['void h_%s(void) {' % cname]
     args = []
     for ty, nm, ptr in sig['params']:
-        lines.append('  %s %s%s;' % (ty, '*' if ptr else '', nm))
+        lines.append('  %s %s%s;' % (ty, '*' * int(ptr), nm))
         args.append(nm)
     lines.append('  %s(%s);' % (cname, ', '.join(args)))
     lines.append('}')
